@@ -212,7 +212,10 @@ class Ref:
         return ('Ref', vkey(read_lv(self.lv)))
 
     def __repr__(self):
-        return '&%r' % (read_lv(self.lv),)
+        try:
+            return '&%r' % (read_lv(self.lv),)
+        except AnalysisIncomplete:
+            return '&<dead>'
 
     def __hash__(self):
         return hash(self.key())
